@@ -75,6 +75,7 @@ class Race(E1Check):
         got: dict[str, Any] = {}
         got_t: dict[str, type] = {}
         failed: dict[str, BaseException] = {}
+        cancelled: set[str] = set()
         events: list = []
 
         async def listener(ctx: Any, started: anyio.Event) -> None:
@@ -88,19 +89,34 @@ class Race(E1Check):
                 if pre_gate:
                     await env.gate("go" + name)
                 env.log("lookup+", name)
-                try:
-                    if api == "method":
-                        target = ctx if not (p["own_child"] and name != "t0") else None
-                        from asphalt.core import current_context
+                scope = anyio.CancelScope()
+                if p.get("cancel_first") and name == "t0":
+                    def _cancel() -> None:
+                        env.log("cancel", name)
+                        cancelled.add(name)
+                        scope.cancel()
 
-                        r = await (target or current_context()).get_resource(T)
-                    elif api == "shortcut":
-                        r = await get_resource(T)
-                    else:
-                        r = await (inj_a() if T is A else inj_b())
+                    env.action("cancel-t0", _cancel)
+                try:
+                    with scope:
+                        if api == "method":
+                            target = ctx if not (p["own_child"] and name != "t0") else None
+                            from asphalt.core import current_context
+
+                            r = await (target or current_context()).get_resource(T)
+                        elif api == "shortcut":
+                            r = await get_resource(T)
+                        else:
+                            r = await (inj_a() if T is A else inj_b())
                 except Exception as e:  # noqa: BLE001
                     failed[name] = e
                     env.log("lookup!", name, type(e).__name__)
+                    return
+                finally:
+                    if name == "t0":
+                        env.drop_action("cancel-t0")
+                if scope.cancelled_caught:
+                    env.log("lookup-cancelled", name)
                     return
                 got[name] = r
                 got_t[name] = T
@@ -158,6 +174,20 @@ class Race(E1Check):
         gen_events = [e for e in events if not e[2]]
         if not p["own_child"] and not p.get("adder") and got and len(gen_events) != 1:
             env.fail("events", f"one context, one first generation, but the listener received {gen_events}")
+        if p.get("cancel_first"):
+            # the task that triggered the generation was (possibly) cancelled while the factory was running: nobody else may be
+            # affected - every other lookup returns, all with one object, which is also what later lookups return
+            names = {f"t{i}" for i in range(len(p["tasks"]))}
+            lost = names - set(got) - set(failed) - {n for n in cancelled if n not in got}
+            if failed:
+                env.fail("factory", f"lookups failed with {failed!r} although the factory never raised")
+            if lost:
+                env.fail("factory", f"lookup(s) {sorted(lost)} neither returned nor were cancelled")
+            if len({id(o) for o in got.values()} | {id(later_a)}) != 1:
+                env.fail("factory", f"after a cancelled generation the lookups of one context returned {len({id(o) for o in got.values()} | {id(later_a)})} different objects")
+            if calls["n"] > 1 + len(cancelled):
+                env.fail("factory", f"factory ran {calls['n']} times ({len(cancelled)} cancelled generation(s))")
+            return
         if p.get("fail_first"):
             for name, exc in failed.items():
                 if type(exc).__name__ != "Flaky":
@@ -233,6 +263,17 @@ def fail_first_units(tier: str) -> list:
     return units
 
 
+def cancel_first_units(tier: str) -> list:
+    """the lookup that triggered the generation is cancelled while the factory is still running; other tasks wait / come later"""
+    units = []
+    for n in (2, 3):
+        for apis in (("method",) * n, ("method", "shortcut", "inject")[:n], ("inject", "method", "method")[:n]):
+            for pre in ((False,) * n, (False,) + (True,) * (n - 1)):
+                units.append({"race": {"async": True, "types": 1, "own_child": False, "cancel_first": True,
+                                       "tasks": [list(t) for t in zip(apis, ("A",) * n, pre)]}})
+    return units
+
+
 def two_type_units(tier: str) -> list:
     """racing lookups of the two types of one async factory (used by C03 for hand-out stability and C18 for events)"""
     units = []
@@ -244,7 +285,7 @@ def two_type_units(tier: str) -> list:
 
 
 def race_units(tier: str) -> list:
-    units = adder_units(tier) + fail_first_units(tier)
+    units = adder_units(tier) + fail_first_units(tier) + cancel_first_units(tier)
     ntasks = (2,) if tier == "quick" else (2, 3)
     for is_async in (True, False):
         for types in (1, 2):
